@@ -100,16 +100,16 @@ func Main(tier, replay string) {
 	sig, _ := fam.Signature("quick")
 	typ, _, _ := fam.Types("quick")
 	var cases []scen.Case
-	for i, c := range sig.Cases {
-		if tier == "thorough" || i%5 == 0 || c.Features["family"] == "sig-return" || c.Features["family"] == "sig-grouped" || (c.Features["alias"] == "wn" && c.Features["validate"] == "") {
+	for _, c := range sig.Cases {
+		if tier == "thorough" || core.Pick(c.ID, 4) || c.Features["family"] == "sig-return" || c.Features["family"] == "sig-grouped" || c.Features["family"] == "sig-3param" || (c.Features["alias"] == "wn" && c.Features["validate"] == "") {
 			cases = append(cases, c)
 		}
 	}
-	for i, c := range typ.Cases {
+	for _, c := range typ.Cases {
 		if c.Features["mutual"] == "true" {
 			continue
 		}
-		if tier == "thorough" || i%4 == 0 || c.Features["family"] != "type-graph" {
+		if tier == "thorough" || core.Pick(c.ID, 3) || c.Features["family"] != "type-graph" {
 			cases = append(cases, c)
 		}
 	}
